@@ -4,6 +4,7 @@ import (
 	"encoding/hex"
 	"encoding/json"
 	"fmt"
+	"net"
 	"os"
 	"reflect"
 	"regexp"
@@ -84,6 +85,20 @@ func c05msg(s *Sink, r *Rand, name string, t reflect.Type, zone string, rounds i
 			map[string]any{"op": "msg-marshal", "type": name, "tz": zone, "values": vals, "outcome": ocl, "msg": msg, "out_hex": hexs(b)}, cl, true)
 		if ocl == "ok" {
 			c05unmarshal(s, name, t, fs, b, zone, cl+"/decode-of-encode")
+			if mode == 0 { // in-domain values: the decoded message is the encoded one, field by field (judged on the Go side,
+				// so that a message layout the model refuses as ill-formed still yields a concrete failing value)
+				p := reflect.New(t)
+				if c2, _ := safeUnmarshal(append([]byte{}, b...), p.Interface()); c2 == "ok" {
+					want, got := leafStrings(sv, fs), leafStrings(p.Elem(), fs)
+					for k := range want {
+						if k < len(got) && want[k] != got[k] {
+							s.Fail(map[string]any{"op": "msg-roundtrip", "type": name, "tz": zone, "values": vals, "field": leaves(fs)[k].F.Name, "encoded": want[k], "decoded": got[k], "out_hex": hexs(b)},
+								fmt.Sprintf("decode(encode(v)) differs from v in field %s of %s", leaves(fs)[k].F.Name, name))
+							break
+						}
+					}
+				}
+			}
 			m := append([]byte{}, b...)
 			m[2+r.Intn(62)] = r.Byte()
 			c05unmarshal(s, name, t, fs, m, zone, cl+"/decode-mutated")
@@ -352,4 +367,47 @@ func c05onDay(s *Sink, r *Rand, name string, t reflect.Type, zone string, y, m, 
 		}
 	}
 	c05unmarshal(s, name, t, fs, b, zone, "msg/dates-on-offset-change-day")
+}
+
+// one string per leaf field, by what the field means (dates by civil fields, IPs in 4-byte form, header fields skipped)
+func leafStrings(sv reflect.Value, fs []LField) []string {
+	out := []string{}
+	for _, l := range leaves(fs) {
+		v := fieldAt(sv, l.Path)
+		switch l.F.Text {
+		case "types.MsgType", "types.SOM":
+			out = append(out, "-")
+		case "net.IP":
+			ip := v.Interface().(net.IP)
+			if ip4 := ip.To4(); ip4 != nil {
+				ip = ip4
+			}
+			out = append(out, fmt.Sprint([]byte(ip)))
+		case "types.Date", "types.DateTime", "types.SystemDate", "types.SystemTime":
+			t := v.Convert(reflect.TypeOf(time.Time{})).Interface().(time.Time)
+			if l.F.Text == "types.SystemTime" {
+				out = append(out, t.Format("15:04:05"))
+			} else if t.IsZero() {
+				out = append(out, "zero")
+			} else {
+				out = append(out, t.Format("2006-01-02 15:04:05"))
+			}
+		case "*types.Date", "*types.DateTime":
+			if v.IsNil() {
+				out = append(out, "nil")
+			} else {
+				t := v.Elem().Convert(reflect.TypeOf(time.Time{})).Interface().(time.Time)
+				out = append(out, t.Format("2006-01-02 15:04:05"))
+			}
+		case "*types.HHmm":
+			if v.IsNil() {
+				out = append(out, "nil")
+			} else {
+				out = append(out, fmt.Sprint(v.Elem().Interface()))
+			}
+		default:
+			out = append(out, fmt.Sprint(v.Interface()))
+		}
+	}
+	return out
 }
